@@ -145,8 +145,24 @@ func (P *Program) discharge(g *Gen, timeoutS int, confirm bool) {
 		}
 		goals = append(goals, ob)
 	}
-	// cover: base script must not be unsat
-	for _, ob := range g.obls {
+	// cover: base script must not be unsat (runs concurrently with the goals)
+	var cwg sync.WaitGroup
+	cwg.Add(1)
+	defer cwg.Wait()
+	covers := append([]*Obligation{}, g.obls...)
+	go func() {
+		defer cwg.Done()
+		P.covers(g, covers, base, dir)
+		P.smoke(g, base, dir)
+	}()
+	if len(goals) == 0 {
+		return
+	}
+	P.dischargeGoals(g, goals, base, dir, timeoutS, confirm)
+}
+
+func (P *Program) covers(g *Gen, obls []*Obligation, base, dir string) {
+	for _, ob := range obls {
 		if ob.Kind != "cover" {
 			continue
 		}
@@ -187,10 +203,9 @@ func (P *Program) discharge(g *Gen, timeoutS int, confirm bool) {
 		ob.Solver, ob.Secs, ob.Output = r.Solver, r.Secs, r.Output
 		cachePut(h, cacheEntry{ob.Status, r.Solver, r.Secs})
 	}
-	P.smoke(g, base, dir)
-	if len(goals) == 0 {
-		return
-	}
+}
+
+func (P *Program) dischargeGoals(g *Gen, goals []*Obligation, base, dir string, timeoutS int, confirm bool) {
 	// 1. all goals at once
 	var fs []string
 	for _, ob := range goals {
@@ -298,7 +313,7 @@ func (P *Program) smoke(g *Gen, base, dir string) {
 		out = ce.Solver
 	} else {
 		f := filepath.Join(dir, "smoke.smt2")
-		_ = writeFile(f, strings.Replace(scr, "(set-logic ALL)", "(set-logic ALL)\n(set-option :timeout 1500)", 1))
+		_ = writeFile(f, strings.Replace(scr, "(set-logic ALL)", "(set-logic ALL)\n(set-option :timeout 600)", 1))
 		r := runSolver(solvers[1], f, 120)
 		out = r.Output
 		cachePut(h, cacheEntry{"smoke", out, r.Secs})
